@@ -1160,7 +1160,9 @@ func (c *Conn) verifyServerCertificate(certificates [][]byte) error {
 			}
 
 			if len(c.config.InsecureServerNameToVerify) == 0 {
-				opts.DNSName = c.config.ServerName
+				// ECH was rejected: the server is authenticated for the public (outer) name
+				// that was sent in the clear, not for the inner name (RFC 9849, section 6.1.6)
+				opts.DNSName = c.serverName
 			} else if c.config.InsecureServerNameToVerify != "*" {
 				opts.DNSName = c.config.InsecureServerNameToVerify
 			}
